@@ -101,6 +101,9 @@ type Device struct {
 	// device's lifetime); 0 = never.
 	FailAt int
 	calls  int
+	// PanicOnFail: the injected failure is a crash (restart model) instead of an error
+	PanicOnFail bool
+	failFired   bool
 	// OnSet is invoked (under no lock) with the source before the device
 	// applies the change; used by C09/C10 to render the other encodings.
 	OnSet func(ctx context.Context, src target.TargetSource, rec *SetRecord)
@@ -189,7 +192,14 @@ func (d *Device) Set(ctx context.Context, source target.TargetSource) (*sdcpb.Se
 	defer d.mu.Unlock()
 	if fail {
 		rec.Failed = true
+		d.failFired = true
 		d.Log = append(d.Log, rec)
+		if d.PanicOnFail {
+			d.PanicOnFail = false
+			d.mu.Unlock()
+			defer d.mu.Lock()
+			panic(CrashSentinel{At: "target.Set"})
+		}
 		return nil, ErrDeviceInjected
 	}
 	ApplyRecord(d.Config, rec)
@@ -205,6 +215,15 @@ func ApplyRecord(c Conf, rec *SetRecord) {
 	for _, u := range rec.Updates {
 		c.ApplyUpdate(u.Path, u.Den)
 	}
+}
+
+// FailFired reports (and clears) whether the injected Set failure happened.
+func (d *Device) FailFired() bool {
+	d.mu.Lock()
+	defer d.mu.Unlock()
+	f := d.failFired
+	d.failFired = false
+	return f
 }
 
 func (d *Device) Snapshot() Conf {
